@@ -326,6 +326,23 @@ def gen_layout(tier, R):
     for bad in ["1 +\x0c 2", "1\x0b+ 2", "a\xa0+ b", "a\u2028b", "1 \x85 2", "\ufeff1", "'abc", "'", "a ' b", "$", "a $ b", "1 ? 2", "\\", "{", "{ {", "//", "", "   ", "#", "a ~ b", "1..2", ".", "..", "1.2.3", "٣", "x ٣", "١٢٣", "²", "½", "a ½", " ", "a b", "　"]:
         out.append(text_case('scan', bad))
         out.append(text_case('text', bad))
+    # through compile() itself (not only the scanner): every white-space and line-break character inside string literals, inside // comments (which end at LF only) and inside block comments,
+    # and between tokens - a normalisation of the raw text before scanning (CR LF -> LF, tabs -> spaces, trimming) would change what a literal denotes or where a comment ends
+    for w in ["\r", "\r\n", "\n", "\t", "\n\r", " \r ", "\x0b", "\x0c", "\u0085", "\u2028", "\u00a0"]:
+        for src in [f"'a{w}b'", f"'{w}'", f"'a{w}' + 'b'", f"x = 'l1{w}l2{w}'", f"1 +// c{w} + 2\n3", f"1 // c{w}+ 2", f"1 {{ c{w} }} + 2", f"1{w}+{w}2", f"{w}1 + 2{w}", f"[1,{w}2]", f"f({w}'a{w}b'{w})",
+                    f"'a''{w}''b'", f"// only{w}", f"1 + 2 //{w}"]:
+            out.append(text_case('text', src))
+            out.append(text_case('scan', src))
+        # with the expectation spelled out (oracle `expect`): a literal denotes exactly its contents; a // comment runs to the next LF and nowhere else
+        wc = w.encode().decode('unicode_escape') if '\\' in w else w
+        def lit_s(t):
+            return "(lit (s" + "".join(f" {ord(c)}" for c in t) + "))"
+        out.append(text_case('rtext', f"'a{wc}b'", exp_field("R=ok:" + lit_s(f"a{wc}b"))))
+        out.append(text_case('rtext', f"'{wc}'", exp_field("R=ok:" + lit_s(wc))))
+        out.append(text_case('rtext', f"'a''{wc}''b'", exp_field("R=ok:" + lit_s(f"a'{wc}'b"))))
+        if '\n' not in wc:
+            out.append(text_case('rtext', f"'p' // c{wc}+ 'q'\n", exp_field("R=ok:" + lit_s("p"))))
+            out.append(text_case('rtext', f"'p' +// c{wc} 'x'\n'q'", exp_field("R=ok:(bin plus " + lit_s("p") + " " + lit_s("q") + ")")))
     # the model's character classification equals Rust's char::is_alphabetic / is_numeric on the code space
     hi = 0x110000 if tier == 'thorough' else 0x34000
     for lo in range(0, hi, 0x1000):
